@@ -34,4 +34,45 @@ def pyRun {α} : List α × List α → List (AOp α) → Option (List α × Lis
 def pyUnpack {α} (xs : List α) (l r : Nat) : List α × List α × List α :=
   (xs.take l, (xs.drop l).take (xs.length - l - r), xs.drop (xs.length - r))
 
+/-- reference model for linear arrays: a Python list plus a "lent" flag per position -/
+structure Ref (α : Type) where
+  vals : List α
+  lent : List Bool
+  deriving DecidableEq, Repr
+
+def Ref.cells (r : Ref α) : Cells α :=
+  List.zipWith (fun v b => if b then none else some v) r.vals r.lent
+
+def Ref.WF (r : Ref α) : Prop := r.vals.length = r.lent.length
+
+inductive LOp (α : Type) where
+  | lend (i : Int)
+  | giveBack (i : Int) (v : α)
+
+def LOp.idx : LOp α → Int
+  | .lend i => i
+  | .giveBack i _ => i
+
+/-- one step on the reference model; `none` = the operation must panic -/
+def refStep (st : Ref α × List α) : LOp α → Option (Ref α × List α)
+  | .lend i =>
+    if h : 0 ≤ i ∧ i.toNat < st.1.vals.length then
+      if st.1.lent[i.toNat]? = some false then
+        some (⟨st.1.vals, st.1.lent.set i.toNat true⟩, st.2 ++ [st.1.vals[i.toNat]'h.2])
+      else none
+    else none
+  | .giveBack i v =>
+    if 0 ≤ i ∧ i.toNat < st.1.vals.length then
+      if st.1.lent[i.toNat]? = some true then
+        some (⟨st.1.vals.set i.toNat v, st.1.lent.set i.toNat false⟩, st.2)
+      else none
+    else none
+
+def refRun : Ref α × List α → List (LOp α) → Option (Ref α × List α)
+  | st, [] => some st
+  | st, o :: os => match refStep st o with
+    | none => none
+    | some st' => refRun st' os
+
+
 end GuppyVerif.ArraySem.Spec
